@@ -9,6 +9,10 @@
 //!   na <node> <ts> <payload> <verify> <sigOk>
 //!   fc <scid> <now>   fn <id> <now>   pr <t>           permanent failures (handle_network_update), pruning
 //!   dump / dumpp                                        canonical dump with / without tombstones
+//!   asynchronous UTXO lookups (phase F/G): `ca … a<fid> <now>` = the lookup answers UtxoResult::Async with a fresh
+//!   UtxoFuture <fid>; `rs <fid> <u|v<sats>>` = UtxoFuture::resolve; `pc <now>` = P2PGossipSync::
+//!   get_and_clear_pending_msg_events (check_resolved_futures), answer = `done` + the queued broadcasts
+//!   (A<scid> / N<node>/<ts> / U<scid>/<dir>/<ts>); `tm` = processing_queue_high (too_many_checks_pending)
 //!
 //! Wall clock: `announcement_received_time` and the tombstone times of `channel_failed_permanent` /
 //! `node_failed_permanent` are `SystemTime::now()` inside the library. The harness reads the clock once
@@ -24,18 +28,18 @@ use bitcoin::{Network, TxOut};
 use ldk_verif_harness::common::*;
 use lightning::ln::chan_utils::make_funding_redeemscript;
 use lightning::ln::msgs::{
-	ChannelAnnouncement, ChannelUpdate, LightningError, NodeAnnouncement, RoutingMessageHandler,
+	BaseMessageHandler, ChannelAnnouncement, ChannelUpdate, LightningError, MessageSendEvent, NodeAnnouncement, RoutingMessageHandler,
 	UnsignedChannelAnnouncement, UnsignedChannelUpdate, UnsignedNodeAnnouncement,
 };
 use lightning::routing::gossip::{NetworkGraph, NetworkUpdate, NodeAlias, NodeId, P2PGossipSync};
-use lightning::routing::utxo::{UtxoLookup, UtxoLookupError, UtxoResult};
+use lightning::routing::utxo::{UtxoFuture, UtxoLookup, UtxoLookupError, UtxoResult};
 use lightning::types::features::{ChannelFeatures, NodeFeatures};
 use lightning::util::ser::{BigSize, ReadableArgs, Writeable};
 use lightning_rapid_gossip_sync::{GraphSyncError, RapidGossipSync};
 use lightning::util::wakers::Notifier;
 use std::collections::HashMap;
 use std::panic::AssertUnwindSafe;
-use std::sync::Arc;
+use std::sync::{Arc, Mutex};
 use std::time::{SystemTime, UNIX_EPOCH};
 
 static LOGGER: NullLogger = NullLogger;
@@ -67,7 +71,32 @@ struct Ctx {
 }
 
 #[derive(Clone, Copy, PartialEq, Debug)]
-enum Utxo { NoLookup, Value(u64), UnknownTx }
+enum Utxo { NoLookup, Value(u64), UnknownTx, /// UtxoResult::Async with the fresh future <fid> (phases F/G only)
+	Async(u64) }
+
+/// what the scripted lookup answers next
+enum Mode { Sync(Result<TxOut, UtxoLookupError>), /// a future that is already resolved when get_utxo returns it (handled in-line by the library)
+	Early(Result<TxOut, UtxoLookupError>), Async(u64) }
+/// a UtxoLookup the harness scripts call by call; it keeps a clone of every future it hands out
+struct Scripted { next: Mutex<Option<Mode>>, futures: Mutex<HashMap<u64, UtxoFuture>>, calls: Mutex<u64> }
+impl UtxoLookup for Scripted {
+	fn get_utxo(&self, _c: &ChainHash, _scid: u64, n: Arc<Notifier>) -> UtxoResult {
+		*self.calls.lock().unwrap() += 1;
+		match self.next.lock().unwrap().take().expect("scripted lookup called without a script") {
+			Mode::Sync(r) => UtxoResult::Sync(r),
+			Mode::Early(r) => { let f = UtxoFuture::new(n); f.resolve(r); UtxoResult::Async(f) },
+			Mode::Async(fid) => { let f = UtxoFuture::new(n); self.futures.lock().unwrap().insert(fid, f.clone()); UtxoResult::Async(f) },
+		}
+	}
+}
+/// the real graph + one P2PGossipSync with the scripted lookup (phases F/G)
+struct AsyncEnv<'a> { g: &'a Graph, look: Arc<Scripted>, sync: P2PGossipSync<&'a Graph, Arc<Scripted>, &'static NullLogger>, early: bool }
+impl<'a> AsyncEnv<'a> {
+	fn new(g: &'a Graph, early: bool) -> AsyncEnv<'a> {
+		let look = Arc::new(Scripted { next: Mutex::new(None), futures: Mutex::new(HashMap::new()), calls: Mutex::new(0) });
+		AsyncEnv { g, sync: P2PGossipSync::new(g, Some(Arc::clone(&look)), &LOGGER), look, early }
+	}
+}
 
 #[derive(Clone, PartialEq, Debug)]
 enum Op {
@@ -80,6 +109,12 @@ enum Op {
 	Pr { t: u64 },
 	/// rapid-gossip-sync snapshot: nodes = detail bits per pool node (rank order), anns = (scid, cap, n1, n2), upds = (scid, flags, cltv, min, base, prop, max)
 	Rgs { latest: u64, now: Option<u64>, d: [u64; 5], nodes: Vec<u8>, anns: Vec<(u64, Option<u64>, u64, u64)>, upds: Vec<(u64, u8, [u64; 5])> },
+	/// UtxoFuture::resolve of future <fid> (res = Value | UnknownTx)
+	Rs { fid: u64, res: Utxo },
+	/// check_resolved_futures through P2PGossipSync::get_and_clear_pending_msg_events
+	Pc,
+	/// too_many_checks_pending
+	Tm,
 }
 
 fn b(x: bool) -> u8 { x as u8 }
@@ -88,17 +123,20 @@ impl Op {
 	fn line(&self, t0: u64) -> String {
 		match self {
 			Op::Ca { scid, n1, n2, same_btc, chain_ok, verify, sigs, utxo } => format!("ca {} {} {} {} {} {} {} {} {} {} {} {}", scid, n1, n2, b(*same_btc), b(*chain_ok), b(*verify), b(sigs[0]), b(sigs[1]), b(sigs[2]), b(sigs[3]),
-				match utxo { Utxo::NoLookup => "n".to_string(), Utxo::UnknownTx => "u".to_string(), Utxo::Value(v) => format!("v{}", v) }, t0),
+				match utxo { Utxo::NoLookup => "n".to_string(), Utxo::UnknownTx => "u".to_string(), Utxo::Value(v) => format!("v{}", v), Utxo::Async(f) => format!("a{}", f) }, t0),
 			Op::Cp { scid, cap, recv, n1, n2 } => format!("cp {} {} {} {} {}", scid, cap.map(|c| c.to_string()).unwrap_or("-".into()), recv, n1, n2),
 			Op::Cu { scid, dir, disabled, ts, cltv, min, max, base, prop, chain_ok, dont_fwd, verify, signer } => format!("cu {} {} {} {} {} {} {} {} {} {} {} {} {}", scid, b(*dir), b(*disabled), ts, cltv, min, max, base, prop, b(*chain_ok), b(*dont_fwd), b(*verify), signer),
 			Op::Na { node, ts, payload, verify, sig_ok } => format!("na {} {} {} {} {}", node, ts, payload, b(*verify), b(*sig_ok)),
 			Op::Fc { scid } => format!("fc {} {}", scid, t0),
 			Op::Fn { id } => format!("fn {} {}", id, t0),
 			Op::Pr { t } => format!("pr {}", t),
+			Op::Rs { fid, res } => format!("rs {} {}", fid, match res { Utxo::Value(v) => format!("v{}", v), _ => "u".to_string() }),
+			Op::Pc => format!("pc {}", t0),
+			Op::Tm => "tm".to_string(),
 			Op::Rgs { .. } => unreachable!("rgs lines need the key parities: Ctx::rgs_line"),
 		}
 	}
-	fn kind(&self) -> &'static str { match self { Op::Ca { .. } => "ca", Op::Cp { .. } => "cp", Op::Cu { .. } => "cu", Op::Na { .. } => "na", Op::Fc { .. } => "fc", Op::Fn { .. } => "fn", Op::Pr { .. } => "pr", Op::Rgs { .. } => "rgs" } }
+	fn kind(&self) -> &'static str { match self { Op::Ca { .. } => "ca", Op::Cp { .. } => "cp", Op::Cu { .. } => "cu", Op::Na { .. } => "na", Op::Fc { .. } => "fc", Op::Fn { .. } => "fn", Op::Pr { .. } => "pr", Op::Rgs { .. } => "rgs", Op::Rs { .. } => "rs", Op::Pc => "pc", Op::Tm => "tm" } }
 	fn is_msg(&self) -> bool { matches!(self, Op::Ca { .. } | Op::Cu { .. } | Op::Na { .. }) }
 }
 
@@ -123,6 +161,10 @@ fn err_kind(e: &LightningError) -> String {
 		else if s == "Update had same timestamp as last processed update" || s == "Update had the same timestamp as last processed update" { "SameTimestamp" }
 		else if s == "No existing channels for node_announcement" { "NoChannelsForNode" }
 		else if s == "Rapid Gossip Sync data is more than two weeks old" { "RgsStale" }
+		else if s == "Channel announcement is already being checked" { "AlreadyChecking" }
+		else if s == "Channel being checked async" { "CheckingAsync" }
+		else if s == "Awaiting channel_announcement validation to accept channel_update" { "AwaitingChanUpd" }
+		else if s == "Awaiting channel_announcement validation to accept node_announcement" { "AwaitingNodeAnn" }
 		else { return format!("err Other({})", s.replace(' ', "_")); };
 	let a = format!("{:?}", e.action);
 	let a = a.split(|c: char| !c.is_alphanumeric()).next().unwrap().to_string();
@@ -241,6 +283,7 @@ impl Ctx {
 				let msg = self.build_ca(*scid, *n1, *n2, *same_btc, *chain_ok, *sigs);
 				let bk1 = PublicKey::from_secret_key(&self.secp, &self.btc_sk[0]);
 				let bk2 = PublicKey::from_secret_key(&self.secp, &self.btc_sk[1]);
+				if let Utxo::Async(_) = utxo { unreachable!("async lookups need an AsyncEnv"); }
 				let stub = match utxo { Utxo::Value(v) => Stub(Ok(TxOut { value: Amount::from_sat(*v), script_pubkey: make_funding_redeemscript(&bk1, &bk2).to_p2wsh() })), _ => Stub(Err(UtxoLookupError::UnknownTx)) };
 				let lookup: Option<&Stub> = if *utxo == Utxo::NoLookup { None } else { Some(&stub) };
 				if *verify {
@@ -266,6 +309,7 @@ impl Ctx {
 			Op::Fc { scid } => { g.handle_network_update(&NetworkUpdate::ChannelFailure { short_channel_id: *scid, is_permanent: true }); "done".into() },
 			Op::Fn { id } => { g.handle_network_update(&NetworkUpdate::NodeFailure { node_id: self.node_pk[(*id as usize - 1) % NK], is_permanent: true }); "done".into() },
 			Op::Pr { t } => { g.remove_stale_channels_and_tracking_with_time(*t); "done".into() },
+			Op::Rs { .. } | Op::Pc | Op::Tm => unreachable!("async ops need an AsyncEnv"),
 			Op::Rgs { now, .. } => {
 				let sync = RapidGossipSync::new(g, &LOGGER);
 				match sync.update_network_graph_no_std(&self.rgs_bytes(op), *now) {
@@ -275,6 +319,87 @@ impl Ctx {
 				}
 			},
 		}
+	}
+	fn lookup_result(&self, res: &Utxo) -> Result<TxOut, UtxoLookupError> {
+		let bk1 = PublicKey::from_secret_key(&self.secp, &self.btc_sk[0]);
+		let bk2 = PublicKey::from_secret_key(&self.secp, &self.btc_sk[1]);
+		match res { Utxo::Value(v) => Ok(TxOut { value: Amount::from_sat(*v), script_pubkey: make_funding_redeemscript(&bk1, &bk2).to_p2wsh() }), _ => Err(UtxoLookupError::UnknownTx) }
+	}
+	fn event_text(&self, ev: &MessageSendEvent) -> String {
+		match ev {
+			MessageSendEvent::BroadcastChannelAnnouncement { msg, .. } => format!("A{}", msg.contents.short_channel_id),
+			MessageSendEvent::BroadcastNodeAnnouncement { msg } => format!("N{}/{}", self.rank_of(&msg.contents.node_id), msg.contents.timestamp),
+			MessageSendEvent::BroadcastChannelUpdate { msg, .. } => format!("U{}/{}/{}", msg.contents.short_channel_id, msg.contents.channel_flags & 1, msg.contents.timestamp),
+			_ => "other".to_string(),
+		}
+	}
+	/// run one op on the real graph behind one P2PGossipSync whose UtxoLookup is scripted (async phases)
+	fn apply_env(&self, env: &AsyncEnv, op: &Op) -> String {
+		let res = |r: Result<(), LightningError>| match r { Ok(()) => "ok".to_string(), Err(e) => err_kind(&e) };
+		let g = env.g;
+		match op {
+			Op::Ca { scid, n1, n2, same_btc, chain_ok, verify, sigs, utxo } => {
+				let msg = self.build_ca(*scid, *n1, *n2, *same_btc, *chain_ok, *sigs);
+				if *utxo == Utxo::NoLookup {
+					return if *verify { res(g.update_channel_from_announcement(&msg, &None::<&Scripted>)) } else { res(g.update_channel_from_unsigned_announcement(&msg.contents, &None::<&Scripted>)) };
+				}
+				*env.look.next.lock().unwrap() = Some(match utxo { Utxo::Async(fid) => Mode::Async(*fid), u => if env.early { Mode::Early(self.lookup_result(u)) } else { Mode::Sync(self.lookup_result(u)) } });
+				let r = if *verify { res(env.sync.handle_channel_announcement(None, &msg).map(|_| ())) } else { res(g.update_channel_from_unsigned_announcement(&msg.contents, &Some(&*env.look))) };
+				*env.look.next.lock().unwrap() = None; // the library does not reach the lookup when an earlier check refuses the message
+				r
+			},
+			Op::Cu { verify, .. } => {
+				let msg = self.build_cu(op);
+				if *verify { res(env.sync.handle_channel_update(None, &msg).map(|_| ())) } else { res(g.update_channel_unsigned(&msg.contents).map(|_| ())) }
+			},
+			Op::Na { node, ts, payload, verify, sig_ok } => {
+				let msg = self.build_na(*node, *ts, *payload, *sig_ok);
+				if *verify { res(env.sync.handle_node_announcement(None, &msg).map(|_| ())) } else { res(g.update_node_from_unsigned_announcement(&msg.contents)) }
+			},
+			Op::Rs { fid, res } => {
+				let f = env.look.futures.lock().unwrap().get(fid).cloned();
+				match f { Some(f) => { f.resolve(self.lookup_result(res)); "done".into() }, None => "done".into() }
+			},
+			Op::Pc => {
+				let evs = env.sync.get_and_clear_pending_msg_events();
+				let mut out = vec!["done".to_string()];
+				for e in evs.iter() { out.push(self.event_text(e)); }
+				out.join(" ")
+			},
+			Op::Tm => format!("{}", b(env.sync.processing_queue_high())),
+			_ => self.apply(g, op),
+		}
+	}
+	/// MODEL-INDEPENDENT authenticity oracle: every signed message the graph stores (announcement_message,
+	/// last_update_message, the Relayed node announcement) really verifies, with secp256k1, against the keys the
+	/// graph announces for that slot, and is the message the stored fields came from. Returns the violations.
+	fn stored_sigs_bad(&self, g: &Graph) -> Vec<String> {
+		let ro = g.read_only();
+		let mut bad = vec![];
+		let ok = |h: &Message, sig: &bitcoin::secp256k1::ecdsa::Signature, id: &NodeId| id.as_pubkey().map(|pk| self.secp.verify_ecdsa(h, sig, &pk).is_ok()).unwrap_or(false);
+		for (scid, c) in ro.channels().unordered_iter() {
+			if let Some(m) = &c.announcement_message {
+				let h = msg_hash(&m.contents);
+				if m.contents.node_id_1 != c.node_one || m.contents.node_id_2 != c.node_two || m.contents.short_channel_id != *scid
+					|| !ok(&h, &m.node_signature_1, &c.node_one) || !ok(&h, &m.node_signature_2, &c.node_two)
+					|| !ok(&h, &m.bitcoin_signature_1, &m.contents.bitcoin_key_1) || !ok(&h, &m.bitcoin_signature_2, &m.contents.bitcoin_key_2) {
+					bad.push(format!("channel {}: stored channel_announcement does not verify against the announced keys", scid));
+				}
+			}
+			for (dir, u, id) in [(0u8, &c.one_to_two, &c.node_one), (1u8, &c.two_to_one, &c.node_two)] {
+				if let Some(u) = u { if let Some(m) = &u.last_update_message {
+					if m.contents.short_channel_id != *scid || m.contents.channel_flags & 1 != dir || m.contents.timestamp != u.last_update || !ok(&msg_hash(&m.contents), &m.signature, id) {
+						bad.push(format!("channel {} direction {}: stored channel_update (timestamp {}) is not signed by node {} of the channel", scid, dir, u.last_update, self.rank_of(id)));
+					}
+				} }
+			}
+		}
+		for (id, n) in ro.nodes().unordered_iter() {
+			if let Some(a) = &n.announcement_info { if let Some(m) = a.announcement_message() {
+				if m.contents.node_id != *id || !ok(&msg_hash(&m.contents), &m.signature, id) { bad.push(format!("node {}: stored node_announcement is not signed by that node", self.rank_of(id))); }
+			} }
+		}
+		bad
 	}
 	/// every stored (last_update, content) of the graph: channel directions and node announcements
 	fn all_stamps(&self, g: &Graph) -> HashMap<(u64, u8), (u32, String)> {
@@ -445,10 +570,13 @@ fn wrongly_signed(ctx: &Ctx, g: &Graph, op: &Op) -> bool {
 	}
 }
 
-struct Runner<'a> { ctx: &'a Ctx, rec: &'a mut Rec }
+struct Runner<'a> { ctx: &'a Ctx, rec: &'a mut Rec, /// violations of the stored-signature oracle already reported (each is reported once)
+	last_bad: Vec<String> }
 impl<'a> Runner<'a> {
 	/// execute + record one op, running the per-op oracles
-	fn exec(&mut self, g: &Graph, op: &Op, tag: &str) -> String {
+	fn exec(&mut self, g: &Graph, op: &Op, tag: &str) -> String { self.exec_in(g, None, op, tag) }
+	/// `env`: the graph sits behind a P2PGossipSync with a scripted (possibly asynchronous) UtxoLookup
+	fn exec_in(&mut self, g: &Graph, env: Option<&AsyncEnv>, op: &Op, tag: &str) -> String {
 		let ctx = self.ctx;
 		let before = ctx.dump(g, true);
 		let forged = wrongly_signed(ctx, g, op);
@@ -456,7 +584,7 @@ impl<'a> Runner<'a> {
 		let pre_chan: Option<Option<u64>> = match op { Op::Cu { scid, .. } => g.read_only().channel(*scid).map(|c| c.capacity_sats), _ => None };
 		let line = ctx.line(op);
 		let stamps_before = if let Op::Rgs { .. } = op { Some(ctx.all_stamps(g)) } else { None };
-		let ans = match guarded(AssertUnwindSafe(|| ctx.apply(g, op))) { Ok(a) => a, Err(p) => format!("panic {}", p.replace(' ', "_")) };
+		let ans = match guarded(AssertUnwindSafe(|| match env { Some(e) => ctx.apply_env(e, op), None => ctx.apply(g, op) })) { Ok(a) => a, Err(p) => format!("panic {}", p.replace(' ', "_")) };
 		let after = ctx.dump(g, true);
 		if ans.starts_with("panic") { self.rec.oracle_fail(format!("panic in the library on `{}`: {} (graph before: {})", line, ans, before)); }
 		// (i) a wrongly signed message never changes the graph
@@ -487,13 +615,21 @@ impl<'a> Runner<'a> {
 		match op {
 			Op::Ca { scid, .. } if ans == "ok" && (before.contains(&format!(" {}:", scid)) && before.split(" | N ").next().unwrap().contains(&format!(" {}:", scid))) => first.push_str("-replaced"),
 			Op::Fc { .. } | Op::Fn { .. } | Op::Pr { .. } | Op::Rgs { .. } => first.push_str(if before != after { "-changed" } else { "-noop" }),
+			Op::Pc => { first = format!("done-{}events", ans.split(' ').count() - 1); first.push_str(if before != after { "-changed" } else { "-noop" }) },
 			_ => {}
+		}
+		if env.is_some() {
+			// authenticity, independent of the model: whatever is stored as a signed message verifies (secp256k1)
+			let bad = ctx.stored_sigs_bad(g);
+			for v in bad.iter() { if !self.last_bad.contains(v) { self.rec.oracle_fail(format!("WRONGLY SIGNED GOSSIP IN THE GRAPH after `{}` => {}: {}; before: {}; after: {}", line, ans, v, before, after)); } }
+			self.last_bad = bad;
 		}
 		self.rec.case(&line, &ans, &format!("{}{}:{}", tag, op.kind(), first), true);
 		ans
 	}
 	fn dump(&mut self, g: &Graph, tomb: bool) -> String {
 		let d = self.ctx.dump(g, tomb);
+		if tomb { let bad = self.ctx.stored_sigs_bad(g); for v in bad.iter() { if !self.last_bad.contains(v) { self.rec.oracle_fail(format!("WRONGLY SIGNED GOSSIP IN THE GRAPH: {}; graph: {}", v, d)); } } self.last_bad = bad; }
 		self.rec.case(if tomb { "dump" } else { "dumpp" }, &d, "dump", false);
 		d
 	}
@@ -541,7 +677,7 @@ fn main() {
 	let (n_sets, n_orders, len_a) = if args.thorough { (15000 * args.scale, 12usize, 90u64) } else { (600 * args.scale, 6usize, 60u64) };
 	let gen = Gen { scids: 6 };
 	let mut stats: HashMap<&'static str, u64> = HashMap::new();
-	let mut r = Runner { ctx: &ctx, rec: &mut rec };
+	let mut r = Runner { ctx: &ctx, rec: &mut rec, last_bad: vec![] };
 
 	for set in 0..n_sets {
 		// ---------------- phase A: arbitrary interleavings (admissible or not) ----------------------
@@ -724,11 +860,179 @@ fn main() {
 			stats.insert("rgs_incremental_vs_older_p2p_update_order_dependent_on_real_code", (dumps[0] != dumps[1]) as u64);
 		}
 	}
+	// ---------------- phase F: ASYNCHRONOUS UTXO lookups, arbitrary interleavings --------------------------
+	// One graph behind one P2PGossipSync whose UtxoLookup is scripted: announcements whose lookup answers
+	// UtxoResult::Async (fresh UtxoFuture each), valid / wrongly signed / re-signed / stale / duplicate updates and
+	// node announcements arriving while lookups are pending, futures resolved (value / UnknownTx) and
+	// check_resolved_futures run at scripted points, duplicates of pending announcements, permanent failures in
+	// between. Differential per op + the model-independent oracle `stored_sigs_bad` after EVERY op.
+	{
+		let n_f = if args.thorough { 30000 * args.scale } else { 2500 * args.scale };
+		let tb = ctx.t0 - 100_000;
+		let (mut parked_replays, mut forged_while_pending) = (0u64, 0u64);
+		for _ in 0..n_f {
+			let g = new_graph();
+			r.rec.directive("reset");
+			let env = AsyncEnv::new(&g, rng.chance(1, 6));
+			let mut next_fid = 1u64;
+			let mut open: Vec<u64> = vec![];
+			let mut all_fids: Vec<u64> = vec![];
+			let mut anns: Vec<Op> = vec![];
+			let mut ann_nodes: HashMap<u64, (u64, u64)> = HashMap::new();
+			let mut recent: Vec<Op> = vec![];
+			let gen_f = Gen { scids: 3 };
+			let n_ops = 8 + rng.below(34);
+			for k in 0..n_ops {
+				let choice = rng.below(100);
+				let op = match choice {
+					0..=21 => {
+						let mut a = if !anns.is_empty() && rng.chance(1, 4) { rng.pick(&anns).clone() } else { gen_f.ca(&mut rng, true) };
+						if let Op::Ca { utxo, scid, n1, n2, .. } = &mut a {
+							*utxo = match rng.below(20) { 0..=10 => { let f = next_fid; next_fid += 1; Utxo::Async(f) }, 11..=13 => Utxo::NoLookup, 14..=17 => Utxo::Value(*rng.pick(&[1000u64, 5, 2_000_000])), _ => Utxo::UnknownTx };
+							ann_nodes.insert(*scid, (*n1, *n2));
+						}
+						anns.push(a.clone());
+						a
+					},
+					22..=61 => {
+						if !recent.is_empty() && rng.chance(1, 6) {
+							// an earlier update again, possibly re-signed by another key / with changed content
+							let mut o = rng.pick(&recent).clone();
+							if let Op::Cu { signer, base, .. } = &mut o { match rng.below(3) { 0 => *signer = 1 + rng.below(NK as u64), 1 => *base += 1, _ => {} } }
+							o
+						} else {
+							let scid = 1 + rng.below(4);
+							let dir = rng.chance(1, 2);
+							let right = ann_nodes.get(&scid).map(|p| if dir { p.1 } else { p.0 });
+							let signer = match rng.below(20) { 0..=12 => right.unwrap_or(1), 13..=15 => ann_nodes.get(&scid).map(|p| if dir { p.0 } else { p.1 }).unwrap_or(2), 16..=17 => GARBAGE, _ => 1 + rng.below(NK as u64) };
+							Op::Cu { scid, dir, disabled: rng.chance(1, 4), ts: tb + rng.below(8), cltv: *rng.pick(&[18u64, 40, 144]), min: rng.below(3), max: *rng.pick(&[1u64, 4000, 6000, 900_000, 1, 4000, 4000, 6000, 900_000, 1, MAX_VALUE_MSAT + 1]), base: rng.below(1000), prop: rng.below(50), chain_ok: !rng.chance(1, 25), dont_fwd: rng.chance(1, 25), verify: !rng.chance(1, 8), signer }
+						}
+					},
+					62..=77 => Op::Na { node: 1 + rng.below(NK as u64), ts: tb + rng.below(8), payload: rng.below(1 << 24), verify: !rng.chance(1, 8), sig_ok: !rng.chance(1, 6) },
+					78..=87 if !all_fids.is_empty() || !open.is_empty() => {
+						let fid = if !open.is_empty() && !rng.chance(1, 12) { let i = rng.below(open.len() as u64) as usize; open.remove(i) } else if !all_fids.is_empty() { *rng.pick(&all_fids) } else { open.remove(0) };
+						Op::Rs { fid, res: if rng.chance(3, 10) { Utxo::UnknownTx } else { Utxo::Value(*rng.pick(&[1000u64, 5, 2_000_000])) } }
+					},
+					88..=95 => Op::Pc,
+					96 => Op::Fc { scid: 1 + rng.below(3) },
+					97 => Op::Fn { id: 1 + rng.below(NK as u64) },
+					98 => Op::Tm,
+					_ => Op::Pc,
+				};
+				let pending_before = !open.is_empty();
+				if let Op::Cu { verify: true, scid, dir, signer, .. } = &op { if pending_before && ann_nodes.get(scid).map(|p| (if *dir { p.1 } else { p.0 }) != *signer).unwrap_or(false) { forged_while_pending += 1; } }
+				let ans = r.exec_in(&g, Some(&env), &op, "F:");
+				if let Op::Ca { utxo: Utxo::Async(f), .. } = &op { if ans.contains("CheckingAsync") { open.push(*f); all_fids.push(*f); } }
+				if let Op::Pc = &op { parked_replays += ans.split(' ').count() as u64 - 1; }
+				if let Op::Cu { .. } = &op { recent.push(op.clone()); if recent.len() > 10 { recent.remove(0); } }
+				if k % 6 == 5 { r.dump(&g, true); }
+			}
+			for fid in open.drain(..) { r.exec_in(&g, Some(&env), &Op::Rs { fid, res: if rng.chance(1, 5) { Utxo::UnknownTx } else { Utxo::Value(1000) } }, "F:"); }
+			r.exec_in(&g, Some(&env), &Op::Pc, "F:");
+			r.dump(&g, true);
+			if rng.chance(1, 10) { r.roundtrip(&g, "phase F"); }
+		}
+		stats.insert("async_episodes", n_f);
+		stats.insert("async_broadcasts_of_replayed_messages", parked_replays);
+		stats.insert("async_wrongly_signed_updates_delivered_while_a_lookup_was_pending", forged_while_pending);
+		// the pending-lookup limit: 34 distinct SCIDs pending, too_many_checks_pending queried after each
+		{
+			let g = new_graph();
+			r.rec.directive("reset");
+			let env = AsyncEnv::new(&g, false);
+			let mut high_from = 0u64;
+			for i in 1..=35u64 {
+				let op = Op::Ca { scid: 100 + i, n1: 1 + (i % 2), n2: 3 + (i % 3), same_btc: false, chain_ok: true, verify: true, sigs: [true; 4], utxo: Utxo::Async(i) };
+				r.exec_in(&g, Some(&env), &op, "F:");
+				let t = r.exec_in(&g, Some(&env), &Op::Tm, "F:");
+				if t == "1" && high_from == 0 { high_from = i; }
+			}
+			for i in 1..=10u64 { r.exec_in(&g, Some(&env), &Op::Rs { fid: i, res: Utxo::Value(1000) }, "F:"); }
+			r.exec_in(&g, Some(&env), &Op::Pc, "F:");
+			r.exec_in(&g, Some(&env), &Op::Tm, "F:");
+			r.dump(&g, true);
+			stats.insert("async_queue_high_from_pending_lookup_number", high_from);
+		}
+	}
+	// ---------------- phase G: the same messages with asynchronous vs synchronous lookup answers ----------
+	// Scripts in which every message is VALID (right signer, limits respected), every SCID is announced once and
+	// timestamps are pairwise distinct: delivering them with UtxoResult::Async (resolved at arbitrary later points,
+	// messages arriving in between) must give the same graph as with the same answers given synchronously.
+	// (With wrongly signed / conflicting messages the two may differ — see the theorems
+	// async_drops_valid_update_behind_forged_newer / cfg `partial`; those scripts are only counted.)
+	{
+		let n_g = if args.thorough { 12000 * args.scale } else { 1200 * args.scale };
+		let tb = ctx.t0 - 200_000;
+		let mut differ_with_invalid = 0u64;
+		for ep in 0..n_g {
+			let all_valid = ep % 3 != 0;
+			let mut script: Vec<Op> = vec![];
+			let mut ann_nodes: HashMap<u64, (u64, u64)> = HashMap::new();
+			let mut results: HashMap<u64, Utxo> = HashMap::new();
+			let mut order: Vec<u64> = vec![1, 2, 3];
+			for i in (1..order.len()).rev() { let j = rng.below(i as u64 + 1) as usize; order.swap(i, j); }
+			let mut to_announce: Vec<u64> = order[..(1 + rng.below(3)) as usize].to_vec();
+			let mut open: Vec<u64> = vec![];
+			let n_ops = 6 + rng.below(20);
+			let mut stamp = 0u64;
+			for _ in 0..n_ops {
+				stamp += 1;
+				match rng.below(10) {
+					0..=1 if !to_announce.is_empty() => {
+						let scid = to_announce.pop().unwrap();
+						let a = 1 + rng.below(NK as u64 - 1);
+						let (n1, n2) = (a, a + 1 + rng.below(NK as u64 - a));
+						let res = if rng.chance(1, 10) { Utxo::UnknownTx } else { Utxo::Value(*rng.pick(&[1000u64, 5, 2_000_000])) };
+						let utxo = if rng.chance(7, 10) { results.insert(scid, res); open.push(scid); Utxo::Async(scid) } else { res };
+						ann_nodes.insert(scid, (n1, n2));
+						script.push(Op::Ca { scid, n1, n2, same_btc: false, chain_ok: true, verify: !rng.chance(1, 8), sigs: [true; 4], utxo });
+					},
+					2..=5 => {
+						let scid = 1 + rng.below(3);
+						let dir = rng.chance(1, 2);
+						let right = ann_nodes.get(&scid).map(|p| if dir { p.1 } else { p.0 }).unwrap_or(1);
+						let signer = if !all_valid && rng.chance(1, 3) { right % NK as u64 + 1 } else { right };
+						script.push(Op::Cu { scid, dir, disabled: rng.chance(1, 4), ts: tb + if all_valid { stamp } else { rng.below(6) }, cltv: 40, min: 1, max: *rng.pick(&[1u64, 4000]), base: rng.below(1000), prop: rng.below(50), chain_ok: true, dont_fwd: false, verify: !rng.chance(1, 8), signer });
+					},
+					6..=7 => script.push(Op::Na { node: 1 + rng.below(NK as u64), ts: tb + if all_valid { stamp } else { rng.below(6) }, payload: rng.below(1 << 24), verify: !rng.chance(1, 8), sig_ok: all_valid || !rng.chance(1, 3) }),
+					8 if !open.is_empty() => { let i = rng.below(open.len() as u64) as usize; let fid = open.remove(i); script.push(Op::Rs { fid, res: results[&fid] }); },
+					_ => script.push(Op::Pc),
+				}
+			}
+			for fid in open.drain(..) { script.push(Op::Rs { fid, res: results[&fid] }); }
+			script.push(Op::Pc);
+			// run 1: asynchronous
+			let ga = new_graph();
+			r.rec.directive("reset");
+			{ let env = AsyncEnv::new(&ga, false); for op in &script { r.exec_in(&ga, Some(&env), op, "G:"); } }
+			let da = r.dump(&ga, true);
+			// run 2: the same answers, synchronously
+			let gs = new_graph();
+			r.rec.directive("reset");
+			{
+				let env = AsyncEnv::new(&gs, false);
+				for op in &script {
+					match op {
+						Op::Rs { .. } | Op::Pc => {},
+						Op::Ca { scid, n1, n2, same_btc, chain_ok, verify, sigs, utxo: Utxo::Async(f) } => { r.exec_in(&gs, Some(&env), &Op::Ca { scid: *scid, n1: *n1, n2: *n2, same_btc: *same_btc, chain_ok: *chain_ok, verify: *verify, sigs: *sigs, utxo: results[f] }, "Gs:"); },
+						o => { r.exec_in(&gs, Some(&env), o, "Gs:"); },
+					}
+				}
+			}
+			let ds = r.dump(&gs, true);
+			if da != ds {
+				if all_valid { r.rec.oracle_fail(format!("asynchronous vs synchronous lookup answers give different graphs for an all-valid script: [{}] async => {} ||| sync => {}", script.iter().map(|o| ctx.line(o)).collect::<Vec<_>>().join(" ; "), da, ds)); }
+				else { differ_with_invalid += 1; }
+			}
+		}
+		stats.insert("sync_vs_async_scripts", n_g);
+		stats.insert("sync_vs_async_scripts_with_invalid_messages_that_differ", differ_with_invalid);
+	}
 	let elapsed = SystemTime::now().duration_since(UNIX_EPOCH).unwrap().as_secs() - ctx.t0;
 	if elapsed >= WINDOW - 600 { r.rec.oracle_fail(format!("harness ran {}s: wall-clock canonicalisation window exceeded (machinery, not the library)", elapsed)); }
-	rec.notes.insert("rule".into(), format!("per message set: phase A = random interleaving of signed/unsigned/forged/stale/duplicate/conflicting gossip with permanent failures and pruning at threshold times (differential + oracles: forged or rejected message leaves the graph unchanged, last_update monotone); phase B = {} random admissible orders of one message multiset with distinct timestamps (oracle: equal dumps and byte-identical canonical encodings) ; phase C = one random inadmissible order; phase A also applies generated version-2 rapid-gossip-sync snapshots through RapidGossipSync::update_network_graph_no_std (oracle: no stored update / node announcement replaced by older-or-equal data); phase E = snapshots applied twice (idempotence oracle), tombstone and incremental-order scenarios; write/read round trip after A and B. distinct = distinct op-line texts", n_orders));
+	rec.notes.insert("rule".into(), format!("per message set: phase A = random interleaving of signed/unsigned/forged/stale/duplicate/conflicting gossip with permanent failures and pruning at threshold times (differential + oracles: forged or rejected message leaves the graph unchanged, last_update monotone); phase B = {} random admissible orders of one message multiset with distinct timestamps (oracle: equal dumps and byte-identical canonical encodings) ; phase C = one random inadmissible order; phase A also applies generated version-2 rapid-gossip-sync snapshots through RapidGossipSync::update_network_graph_no_std (oracle: no stored update / node announcement replaced by older-or-equal data); phase E = snapshots applied twice (idempotence oracle), tombstone and incremental-order scenarios; write/read round trip after A and B; phase F = asynchronous UTXO lookups (scripted UtxoLookup answering UtxoResult::Async, futures resolved and check_resolved_futures run at scripted points, valid / wrongly signed / re-signed gossip in between; oracle after every op: every stored signed message verifies with secp256k1 against the announced keys); phase G = all-valid scripts delivered with asynchronous vs synchronous answers must give equal graphs. distinct = distinct op-line texts", n_orders));
 	for (k, v) in stats.iter() { rec.notes.insert((*k).into(), v.to_string()); }
-	rec.notes.insert("not_exercised".into(), "production-only wall-clock freshness test of update_channel_internal (cfg not(_test_utils)); asynchronous UTXO lookups; rapid-gossip-sync: version-1 snapshots, node addresses / feature changes (not part of the dump), the forwards-compatibility additional-data paths of updates".into());
+	rec.notes.insert("not_exercised".into(), "production-only wall-clock freshness test of update_channel_internal (cfg not(_test_utils)); asynchronous UTXO lookups: dropped UtxoFutures (Weak::upgrade failure arms), a future shared by two lookups, UnknownChain / wrong-script answers, rapid-gossip-sync snapshots while a lookup is pending; rapid-gossip-sync: version-1 snapshots, node addresses / feature changes (not part of the dump), the forwards-compatibility additional-data paths of updates".into());
 	rec.notes.insert("node_channel_list_order".into(), "NodeInfo.channels is kept in arrival order by the library (and compared in that order by NodeInfo::eq / written in that order); the oracle and the model compare it as a set".into());
 	rec.finish();
 }
